@@ -258,6 +258,8 @@ def build_ann(s, env, spelling=None, preds=None):
     if k == "tup":
         items = tuple(build_ann(x, env, None, preds) for x in s[1])
         return tuple[items] if items else tuple[()]
+    if k == "tupvar":  # tuple[T, ...]
+        return tuple[build_ann(s[1], env, None, preds), ...]
     if k == "listof":
         if sp.get("list") == "typing":
             return typing.List[build_ann(s[1], env, None, preds)]
@@ -294,7 +296,7 @@ def build_ann(s, env, spelling=None, preds=None):
 
 def is_dependent_spec(s):
     k = s[0]
-    if k in ("lit", "dep", "tup", "listof", "seqof", "collof", "mapof", "dictof", "regexp",
+    if k in ("lit", "dep", "tup", "tupvar", "listof", "seqof", "collof", "mapof", "dictof", "regexp",
              "startswith", "endswith", "haskey", "rebound"):
         return True
     if k in ("union", "inter"):
@@ -362,6 +364,15 @@ def accepts(s, value, env):
         if not isinstance(value, tuple) or len(value) != len(s[1]):
             return False
         return _and(accepts(x, v, env) for x, v in zip(s[1], value))
+    if k == "tupvar":
+        if not isinstance(value, tuple):
+            return False
+        vs = [accepts(s[1], v, env) for v in value]
+        if not vs or all(v is True for v in vs):
+            return True
+        if vs[0] is False:
+            return False
+        return None  # the first element fits, a later one does not: deep or shallow check is not documented
     if k == "listof":
         if not isinstance(value, list):
             return False
@@ -437,7 +448,7 @@ def dep_bound(s, env):
         return ts.pop() if len(ts) == 1 else None
     if k in ("regexp", "startswith", "endswith"):
         return str
-    if k == "tup":
+    if k in ("tup", "tupvar"):
         return tuple
     if k == "listof":
         return list
